@@ -197,6 +197,27 @@ example : ∃ iw, ParamsOk Ex.P0 ∧ IHistWF Ex.iopsA ∧ irun Ex.P0 Ex.iopsA = 
     walIds iw.w.disk = [1, 2] ∧ iw.w.disk.metaFile.map (·.cursor) = some 1 ∧ sinceFreeze Ex.iopsA = 2 :=
   ⟨_, Ex.P0_ok, Ex.iopsA_wf, rfl, rfl, rfl, by decide, by decide, by decide⟩
 
+/-- The interleaved machine follows the source in the cursor choices that only matter when calls overlap a flush
+    (`Gen/WalProtocol.lean`, regenerated from /repo by every check run): the unflushed range is
+    `earliest_unflushed_wal_id..next_wal_id`, captured in the freeze block after `wal_size` is locked;
+    `persist_metastore` gets the captured END and stores it as `earliest_unflushed_wal_id`; `MetaStore::serialize`
+    writes `earliest_unflushed_wal_id` as the cursor; `delete_wal_segments` gets the captured range; the tail of
+    `wal_flush` runs in the order partitions, catalogue, orphans, segments.  A source edit that changes one of these
+    fails this obligation. -/
+theorem C08_machine_follows_source :
+    LM.Gen.WalProtocol.serializedCursorField = "earliest_unflushed_wal_id" ∧
+    LM.Gen.WalProtocol.unflushedRange = "self.earliest_unflushed_wal_id..self.next_wal_id" ∧
+    LM.Gen.WalProtocol.advanceEarliest = "self.earliest_unflushed_wal_id=wal_id;" ∧
+    LM.Gen.WalProtocol.capturedUnderLock = true ∧
+    LM.Gen.WalProtocol.persistMetastoreArg = "unflushed_wal_ids.end" ∧
+    LM.Gen.WalProtocol.deleteWalSegmentsArg = "unflushed_wal_ids" ∧
+    LM.Gen.WalProtocol.flushTailOrder = ["persist_partitions", "persist_metastore", "delete_orphaned_partitions", "delete_wal_segments"] ∧
+    (∀ (P : Params ν κ) (iw : IWorld ν κ) (op : IOp ν κ),
+      istepVar (decide (LM.Gen.WalProtocol.serializedCursorField ≠ "earliest_unflushed_wal_id")) false P iw op = istep P iw op) := by
+  refine ⟨by decide, by decide, by decide, by decide, by decide, by decide, by decide, fun P iw op => ?_⟩
+  have h : decide (LM.Gen.WalProtocol.serializedCursorField ≠ "earliest_unflushed_wal_id") = false := by decide
+  rw [h]; exact istepVar_ff P iw op
+
 /-- Sensitivity: the theorems above depend on `persist_metastore` storing the CAPTURED end of the unflushed range.
     In the variant machine that stores `next_wal_id` instead (`persistMetaNext`), the same history loses the two
     batches acknowledged during the flush at the clean restart: before the restart all 4 rows are visible, after it 1. -/
